@@ -41,7 +41,7 @@ BOUNDS = {
     "thorough": "depth-3 family over all operator pairs, both builds",
 }
 OUTSIDE = "assignment statements NAME = expr; programs deeper than 3; real libm functions (uninterpreted here)"
-REQUIRED_CLASSES = ["programs", "after_change", "zero_division", "python_mirror", "attr_mode"]
+REQUIRED_CLASSES = ["programs", "after_change", "zero_division", "python_mirror", "attr_mode", "bound_variable"]
 PROFILE_CASES = 3
 TASKS_PER_CHILD = 20
 
@@ -280,15 +280,41 @@ def run_case(ex, case):
                         return
             # variables change through the manager; same evaluators, same text, same deferred object
             if i % case.get("change_every", 1) == 0 and variant == "plain":
+                bound = hasattr(dexpr, "_get_value") and dv[0] == "val" and not is_nan(dv[1])
+                if bound:
+                    try:
+                        vref["yy"] = dexpr          # a variable defined by the deferred expression (what MadxEnv.read_state does)
+                    except (Abort, Inconclusive):
+                        raise
+                    except ZeroDivisionError:
+                        bound = False
                 old = (V["a"], V["b.c"], k1())
-                vref["a"] = ex.real(ex.name("a_new"))
-                vref["b.c"] = ex.real(ex.name("bc_new"))
-                setk1(ex.real(ex.name("k1_new")))
+                try:
+                    vref["a"] = ex.real(ex.name("a_new"))
+                    vref["b.c"] = ex.real(ex.name("bc_new"))
+                    setk1(ex.real(ex.name("k1_new")))
+                except ZeroDivisionError:
+                    # the bound variable's task raised on the new values (e.g. 0 ** negative): immediate evaluation must raise too
+                    iv2 = outcome(lambda: madeval(s))
+                    if iv2[0] != "zero":
+                        # an intermediate state (only some variables updated) raised: not comparable, drop the path
+                        raise Abort()
+                    return
                 note(ex, "after_change")
                 iv2 = outcome(lambda: madeval(s))
                 dv2 = outcome(lambda: dexpr._get_value() if hasattr(dexpr, "_get_value") else dexpr)
                 if not agree(ex, dv2, iv2, f"{s!r} after the variables changed (same deferred expression)", det):
                     return
+                if bound and iv2[0] == "val" and not is_nan(iv2[1]) and dv2[0] == "val" and not is_nan(dv2[1]):
+                    note(ex, "bound_variable")
+                    if not ex.prove(eq(V["yy"], iv2[1]), f"{s!r}: the variable defined by the deferred expression is stale after the variables changed through the manager", det):
+                        return
+                if bound:
+                    try:
+                        env_m = vref._manager
+                        env_m.unregister(vref["yy"])
+                    except Exception:
+                        pass
                 dexpr3 = madexpr(s)
                 dv3 = outcome(lambda: dexpr3._get_value() if hasattr(dexpr3, "_get_value") else dexpr3)
                 if not agree(ex, dv3, iv2, f"{s!r} after the variables changed (text re-evaluated on the same evaluators)", det):
